@@ -76,6 +76,16 @@ CHECKS.update({
          "reproduced on the real code and fixed."),
    note="Trusted: TLC, the observer, the harness' notion of playing time (deck not stopped before the call). Scaled model: 3 tapes of 1-3 blocks."),
 })
+CHECKS.update({
+ "C17": dict(
+   category="model_checking", design_ref="4 (C17)", technique="TLC exhaustive refinement (matrices vs held-sets) + TLC trace validation of input histories read back by the emulated CPU",
+   text=("Input.tla states the input ports from the sets of controls held per source; MC_Input checks for every event history to depth 4 (5) on a reduced "
+         "universe that the implementation-shaped three-matrix/modifier-mask/port-byte design reads identically. On the real emulator random histories over "
+         "all keys, compound keys, both Sinclair sticks, Kempston bits, mouse buttons/wheel/motion are applied and after each event the CPU reads every "
+         "half-row, multi-row selectors (all 256 periodically) and the joystick/mouse ports; InputTrace compares each read. Reads explained only by the "
+         "named deviation sinclair2down are reported as the known finding D11."),
+   note="Trusted: TLC, the single-step IN A,(C) driver. D11 is open (pinned test hash enshrines it); any other mismatch is a VIOLATION."),
+})
 NOT_YET = {}
 
 HOOK_COMMITS = ["71990aa"]
